@@ -10,8 +10,8 @@ theorem firstOpenOps_eq : firstOpenOps =
      .rename .manifestRewrite .manifest, .syncDir,
      .create .keyRegistryRewrite, .append .keyRegistryRewrite .kreg,
      .rename .keyRegistryRewrite .keyRegistry, .syncDir,
-     .create (.mem 1), .extend (.mem 1), .append (.mem 1) .hdr, .zero (.mem 1), .syncDir,
-     .create (.vlog 1), .extend (.vlog 1), .append (.vlog 1) .hdr, .zero (.vlog 1)] := by
+     .create (.mem 1), .extend (.mem 1), .append (.mem 1) .hdr, .zero (.mem 1), .syncDir, .syncDir,
+     .create (.vlog 1), .extend (.vlog 1), .append (.vlog 1) .hdr, .zero (.vlog 1), .syncDir] := by
   decide
 
 /-- the kill view of the directory after the first `Open` -/
